@@ -183,7 +183,20 @@ def checkPlaceholder (j : Json) : Except String Verdict := do
     else none
   return { nontrivial := true, mismatch := mm, specfail := sf }
 
+/-- a name that was delivered, removed by a complete update and idle for longer than the expiry period is looked up
+again and delivered again: in the model the waiting lookup is woken by the delivery and re-reads the cache
+(`getWake`: the value), whatever the access record says -/
+def checkAgedRecord (pid : String) (j : Json) : Except String Verdict := do
+  let obs ← j.getObjVal? "obs"
+  let res := jStrD obs "result" "?"
+  let rt := jStrD j "rt" "?"
+  let ok := res = "val:back-again#3"
+  return { nontrivial := jBoolD obs "aged" false
+           mismatch := if ok then none else some s!"aged access record ({rt}): model: the lookup returns the delivered value, impl {res}"
+           specfail := if ok then none else some s!"{if pid = "C05" then "C05.value_xor_error" else "C06.no_lost_wakeup"}: the {rt} resource was delivered (accepted) while its lookup was waiting, well before the deadline; the lookup returned '{res}' - the resource had been delivered once before, removed by the control plane and not asked for during more than the expiry period (its old access record was still around)" }
+
 def check (pid : String) (j : Json) : Except String Verdict := do
+  if jStrD j "op" "" = "aged-record" then return ← checkAgedRecord pid j
   if jStrD j "op" "" = "placeholder" then return ← checkPlaceholder j
   if jStrD j "op" "" = "evict-during-update" then return ← checkEvictDuringUpdate pid j
   if jStrD j "op" "" = "deadline" then return ← checkDeadline j
